@@ -3,7 +3,7 @@ from . import common as C
 from .gens import *
 
 PROP = "C02"
-LEAN_MODULE = "RSV.Props.C02"
+LEAN_MODULE = "RSV.Props.C02all"
 RULE = ("proof: C02_mds (for every MDS generator, every erasure pattern, mode, shard length and content, reconstruct = the "
         "specification reconSpec), C02_never_wrong / C02_any (any generator: success never carries wrong bytes), C02_too_few_iff; "
         "through the proved Gaussian elimination (invert_sound/complete). Correspondence: Go Reconstruct/ReconstructData/"
